@@ -29,7 +29,16 @@ META = {
             "reachable (guard step, monitor step[, cleaner step]) position is replayed on REAL processes by stepping "
             "them through their system calls (and killing them) with the shim; the recorded system-call traces are "
             "validated by ProcessStateTrace.tla (conformance) and the observed verdicts by ProcessPropTrace.tla "
-            "(property layer, decides V1). A model counterexample is reported only if the real replay reproduces it.",
+            "(property layer, decides V1). A model counterexample is reported only if the real replay reproduces it. "
+            "Refused cleaners: the REFUSAL TAILS of ProcessCleaner::new (the calls a loser performs after a failed "
+            "acquire step) are extracted from stepped races of two real cleaner processes and are steps of the model; "
+            "RefusedChangesNothing (a refused cleaner has not removed / created / chmod-ed / written a token file) and "
+            "AbsentOnlyAfterCleanup (no 'absent' before an owner has begun to remove the files) are checked by TLC and, "
+            "on real traces, by the property layer which consumes the state-changing calls of non-owning cleaners. A "
+            "grid of two real cleaners (loser stopped after a calls, winner after b calls of acquire / ownership / "
+            "drop, then the loser runs to its refusal, monitors ask, the winner completes or is killed, a third "
+            "cleaner must recover) and fault-injected attempts (sysshim FAIL_AT on every open / lock call) are "
+            "replayed on real processes.",
     "note": "Trusted: TLC; the shim's view of the libc calls (cross-checked with strace in the thorough tier); POSIX "
             "advisory record lock semantics as modelled (locks die with the process / on close, F_GETLK ignores own "
             "locks, locks work on unlinked inodes); one guard incarnation per path (inode = name). The in-process "
@@ -151,6 +160,7 @@ class Run:
         self.state = {}                    # per process controller-side phase
         self.diverged = None
         self.answers = []                  # (proc, event dict)
+        self.faults = {}                   # cleaner -> (k, errno): fail the k-th numbered call of its attempt
         self.step_dir = os.path.join(self.dir, "fifo") if stepped else None
 
     def files_left(self):
@@ -195,7 +205,16 @@ class Run:
                 return False
         else:
             if st == "new":
-                self.ev(p, "cstart"); pr.send("acquire"); self.state[p] = "acquiring"
+                if p in self.faults:
+                    k, en = self.faults[p]
+                    pr.send(f"failat {k} {en}")
+                    o = pr.wait_out()
+                    if not o or o.get("ev") != "armed" or o.get("v") != "Ok":
+                        raise vp.ToolError(f"fault injection could not be armed in {p}: {o}")
+                    self.ev(p, "cstart", v="fault")
+                else:
+                    self.ev(p, "cstart")
+                pr.send("acquire"); self.state[p] = "acquiring"
             elif st == "owner":
                 self.ev(p, "cdrop_begin"); pr.send("drop"); self.state[p] = "cdropping"
             else:
@@ -305,6 +324,51 @@ class Run:
     def begin_more(self, p):
         return self.state[p] in ("created", "owner")
 
+    def steps(self, p, n):
+        """p performs its next n tracked calls (beginning the next command of its life cycle whenever it is idle);
+        returns the number of calls performed (smaller when its life has fewer calls left)."""
+        self.proc(p)
+        done = idle = 0
+        while done < n and idle < 2:
+            if self.ensure_announced(p) is None:
+                idle += 1
+                continue
+            idle = 0
+            self.take_step(p)
+            done += 1
+        return done
+
+    def query(self, p):
+        """One complete query of monitor p, call by call."""
+        self.proc(p)
+        if self.state[p] not in ("new", "idle"):
+            return
+        first = True
+        while True:
+            ann = self.ensure_announced(p, may_begin=first)
+            first = False
+            if ann is None:
+                return
+            self.take_step(p)
+
+    def run_until_done(self, p, pred, limit=400):
+        """p performs calls (as steps()) until it has performed one for which pred(abstract record) holds."""
+        self.proc(p)
+        idle = 0
+        for _ in range(limit):
+            ann = self.ensure_announced(p)
+            if ann is None:
+                idle += 1
+                if idle >= 2:
+                    return False
+                continue
+            idle = 0
+            a = norm_sys(dict(ann, ret=0, errno=0, rt="F_UNLCK"))
+            self.take_step(p)
+            if pred(a):
+                return True
+        return False
+
     def run_cmd(self, p):
         """Free (unstepped) execution of p's next command; returns the answer."""
         if not self.begin(p):
@@ -328,6 +392,10 @@ class Run:
                 out.append(norm_sys(r))
             elif r["k"] == "kill":
                 continue
+            elif r["k"] == "fault":      # the shim's record of an injected failure (the failed "sys" record follows)
+                o = blank("ev", r["p"])
+                o["ev"] = "fault"
+                out.append(o)
             else:
                 out.append(r)
         return out
@@ -414,8 +482,67 @@ def extract(ctx):
         for o in seq:
             if o["op"] not in ("create", "chmod", "write", "lock", "lockw", "unlink", "close") or o["f"] == "dir":
                 drift.append(f"{nm}: step outside the vocabulary {o}")
+    refuse, how = extract_refusals(ctx, cacq, cut or 0, drift)
     return {"GuardCreate": gcreate, "GuardDrop": gdrop, "CleanerAcquire": cacq, "CleanerDrop": cdrop,
+            "CleanerRefuse": refuse, "RefuseHow": how, "NState": cut or 0, "AcquireCalls": acq,
             "NodeMap": nodemap}, drift
+
+
+def extract_refusals(ctx, cacq, nstate, drift):
+    """The REFUSED paths of ProcessCleaner::new: for every step j of the acquire part, the calls the cleaner performs
+    AFTER that step has failed (before it returns its error) - its refusal tail. Extracted from races of two real
+    cleaner processes stepped call by call: the loser C2 is stopped before its step j, the winner C1 acquires the
+    files (and, for an open step, drops them until the file of step j is unlinked), then C2 runs to its result.
+    A step whose failure cannot be provoked with the unchanged protocol (F_GETLK of the state file: the guard is
+    dead; a blocking lock) gets the tail "close what is open, in reverse order"; a real trace that differs is DRIFT
+    of the state layer, the property layer judges the real calls anyway."""
+    tails, how = [], []
+    for j, o in enumerate(cacq, start=1):
+        opened = [x["f"] for x in cacq[:j - 1] if x["op"] == "open"]
+        default = [{"op": "close", "f": f, "perm": "none"} for f in reversed(opened)]
+        if o["op"] not in ("open", "lock"):
+            tails.append(default)
+            how.append("assumed")
+            continue
+        r = Run(ctx, f"dry-refuse-{j}", {}, stepped=True)
+        tail = None
+        try:
+            r.proc("G")
+            r.finish("G")
+            r.crash("G")
+            if r.steps("C2", nstate + j - 1) != nstate + j - 1:
+                drift.append(f"refusal of acquire step {j}: the loser has fewer calls than expected")
+            else:
+                r.proc("C1")
+                r.finish("C1")
+                ok = r.state.get("C1") == "owner"
+                if ok and o["op"] == "open":
+                    ok = r.run_until_done("C1", lambda a: a["op"] == "unlink" and a["f"] == o["f"])
+                n0 = len(r.records())
+                r.finish("C2")
+                mine = [x for x in r.records()[n0:] if x["k"] == "sys" and x["p"] == "C2"]
+                res = [x for x in r.records()[n0:] if x["k"] == "ev" and x["p"] == "C2" and x["ev"] == "cresult"]
+                if not ok or not mine or mine[0]["op"] != o["op"] or mine[0]["f"] != o["f"] \
+                        or mine[0]["obs"] not in ("enoent", "fail") or not res or res[0]["v"] == "Ok":
+                    drift.append(f"refusal of acquire step {j} ({o['op']} {o['f']}) could not be provoked: "
+                                 f"{[(x['op'], x['f'], x['obs']) for x in mine[:3]]} {[x['v'] for x in res]}")
+                else:
+                    tail = [op_rec(x) for x in mine[1:]]
+        except shimctl.Hang as e:
+            drift.append(f"refusal of acquire step {j}: {e}")
+        finally:
+            r.close()
+        shutil.rmtree(r.dir, ignore_errors=True)
+        if tail is None:
+            tails.append(default)
+            how.append("assumed")
+            continue
+        for x in tail:
+            if x["op"] not in ("fstat", "close", "unlink", "chmod", "unlock") or x["f"] == "dir":
+                drift.append(f"refusal tail of acquire step {j}: step outside the vocabulary {x}")
+        tails.append(tail)
+        how.append("extracted")
+    return tails, how
 
 
 # ---------------------------------------------------------------------------------------------
@@ -427,6 +554,10 @@ def tla_seq(ops):
 
 def tla_set(xs):
     return "{" + ", ".join(f'"{x}"' for x in xs) + "}"
+
+
+def tla_seqseq(seqs):
+    return "<< " + ", ".join(tla_seq(x) for x in seqs) + " >>"
 
 
 def tla_sig(s):
@@ -442,13 +573,14 @@ def write_mc(ctx, name, ext, base, cfgd, invariants, excused, trace=False):
         f.write(f"---- MODULE {name} ----\nEXTENDS {base}\n"
                 f"GuardCreateSeq == {tla_seq(ext['GuardCreate'])}\nGuardDropSeq == {tla_seq(ext['GuardDrop'])}\n"
                 f"CleanerAcquireSeq == {tla_seq(ext['CleanerAcquire'])}\nCleanerDropSeq == {tla_seq(ext['CleanerDrop'])}\n"
+                f"CleanerRefuseSeq == {tla_seqseq(ext['CleanerRefuse'])}\n"
                 f"NodeMapVal == {nm}\nLevelsVal == {level}\n"
                 f"ExcusedVal == {{{', '.join(tla_sig(s) for s in excused)}}}\n"
                 f"CrashPhasesVal == {tla_set(cfgd.get('crash', []))}\n====\n")
     with open(os.path.join(d, name + ".cfg"), "w") as f:
         f.write(("SPECIFICATION TraceSpec\n" if trace else "SPECIFICATION Spec\n") + "CONSTANTS\n"
                 " GuardCreate <- GuardCreateSeq\n GuardDrop <- GuardDropSeq\n CleanerAcquire <- CleanerAcquireSeq\n"
-                " CleanerDrop <- CleanerDropSeq\n NodeMap <- NodeMapVal\n Levels <- LevelsVal\n Excused <- ExcusedVal\n"
+                " CleanerDrop <- CleanerDropSeq\n CleanerRefuse <- CleanerRefuseSeq\n NodeMap <- NodeMapVal\n Levels <- LevelsVal\n Excused <- ExcusedVal\n"
                 " GuardCrashPhases <- CrashPhasesVal\n"
                 f" Monitors = {tla_set(cfgd.get('monitors', []))}\n Cleaners = {tla_set(cfgd.get('cleaners', []))}\n"
                 f" Privileged = {'TRUE' if cfgd.get('priv', True) else 'FALSE'}\n"
@@ -462,7 +594,8 @@ def write_mc(ctx, name, ext, base, cfgd, invariants, excused, trace=False):
     return d
 
 
-INVS = ["TypeOK", "NoFalseDead", "NoReclaimFromLive", "DeadIsDetected", "ExclusiveCleanup", "CleanerCrashRecoverable"]
+INVS = ["TypeOK", "NoFalseDead", "NoReclaimFromLive", "DeadIsDetected", "ExclusiveCleanup", "CleanerCrashRecoverable",
+        "RefusedChangesNothing", "AbsentOnlyAfterCleanup"]
 PROP_INVS = INVS[1:]
 ALL_PHASES = ["startup", "running", "shutdown"]
 
@@ -628,7 +761,8 @@ def describe(run):
 
 
 INV_OF = {"falsedead": "NoFalseDead", "reclaim": "NoReclaimFromLive", "undetected": "DeadIsDetected",
-          "exclusive": "ExclusiveCleanup", "loser": "ExclusiveCleanup", "unrecoverable": "CleanerCrashRecoverable"}
+          "exclusive": "ExclusiveCleanup", "loser": "ExclusiveCleanup", "unrecoverable": "CleanerCrashRecoverable",
+          "refused": "RefusedChangesNothing", "vanished": "AbsentOnlyAfterCleanup"}
 
 
 def model_check(ctx, ext, known, quick):
@@ -687,7 +821,7 @@ def model_check(ctx, ext, known, quick):
                 + (["GCrash"] if cfgd.get("crash") else []) \
                 + (["MonStep"] if cfgd.get("monitors") else []) \
                 + (["CStateStep", "CAcqStep", "CDropStep"] if cfgd.get("cleaners") else []) \
-                + (["CFailStep"] if len(cfgd.get("cleaners", [])) > 1 and not cfgd.get("monitors") else []) \
+                + (["CRefuseStep"] if len(cfgd.get("cleaners", [])) > 1 and not cfgd.get("monitors") else []) \
                 + (["CCrash"] if cfgd.get("ccrash") else [])
             if not cfgd.get("simulate"):
                 vp.check_action_coverage(res, need, name)
@@ -739,8 +873,13 @@ def run(ctx):
     for dmsg in drift:
         print(f"DRIFT: {dmsg}")
         ctx.note("drift: " + dmsg)
-    ctx.coverage["extracted"] = {k: ([f"{o['op']}({o['f']}{',' + o['perm'] if o['perm'] != 'none' else ''})" for o in v]
-                                     if isinstance(v, list) else v) for k, v in ext.items()}
+    def fmt_ops(v):
+        return [f"{o['op']}({o['f']}{',' + o['perm'] if o['perm'] != 'none' else ''})" for o in v]
+    ctx.coverage["extracted"] = {k: (fmt_ops(v) if isinstance(v, list) else v) for k, v in ext.items()
+                                 if k not in ("CleanerRefuse", "AcquireCalls", "RefuseHow")}
+    ctx.coverage["extracted"]["CleanerRefuse"] = [
+        {"after_failed": fmt_ops([o])[0], "tail": fmt_ops(t), "how": h}
+        for o, t, h in zip(ext["CleanerAcquire"], ext["CleanerRefuse"], ext["RefuseHow"])]
     known = [tuple(s) for s in known_sigs(ctx)]
     if not ext["GuardCreate"] or not ext["GuardDrop"] or not ext["CleanerDrop"] or not ext["CleanerAcquire"]:
         print("DRIFT: step sequences could not be extracted; model checking skipped")
@@ -756,7 +895,8 @@ def run(ctx):
     # ---- 3. real processes: witnesses, one behaviour per reachable position, free runs ----------
     jobs = []
     for s, (sched, cname, cfgd) in sorted(witnesses.items()):
-        lv = {m: ("cal" if s[0] == "falsedead" and s[1] in ("cal", "node") else "pm") for m in cfgd.get("monitors", [])}
+        lv = {m: ("cal" if s[0] in ("falsedead", "vanished") and s[1] in ("cal", "node") else "pm")
+              for m in cfgd.get("monitors", [])}
         # the listing step of Node::list has no counterpart on the bare token files (see node_level)
         sched = [e for e in sched if e[1] not in ("scandir", "stat")]
         jobs.append(("w-" + sig_str(s).replace(":", "_"), sched, lv, "M",
@@ -781,15 +921,21 @@ def run(ctx):
             for (lvl, cont) in variants:
                 jobs.append((f"{cname}-{i}-{lvl}-{cont}", best[key], {m: lvl for m in cfgd.get("monitors", [])}, cont))
     ctx.coverage["positions"] = npos
-    runs = []
+    grid, faults = refusal_jobs(ext, quick, rng) if ext["CleanerAcquire"] and ext["CleanerDrop"] else ([], [])
+    runs, fruns = [], []
     with concurrent.futures.ThreadPoolExecutor(max_workers=10) as ex:
-        for f in [ex.submit(replay_schedule, ctx, *j) for j in jobs]:
+        futs = [ex.submit(replay_schedule, ctx, *j) for j in jobs] + [ex.submit(grid_run, ctx, *j) for j in grid]
+        ffuts = [ex.submit(fault_run, ctx, *j) for j in faults]
+        for f in futs:
             runs.append(f.result())
+        for f in ffuts:
+            fruns.append(f.result())
     for k in range(30 if quick else 300):
         runs.append(free_run(ctx, f"free-{k}", rng))
-    nruns = node_level(ctx)
+    nruns = node_level(ctx) + fruns      # judged by the property layer only (no counterpart in ProcessState.tla)
     ctx.evaluations += len(runs) + len(nruns)
     ctx.distinct += len({json.dumps(r["records"], sort_keys=True) for r in runs + nruns})
+    refusal_coverage(ctx, [r for r in runs if r.get("kind") == "grid"], fruns)
     for r in [r for r in runs + nruns if r["hang"]][:3]:
         ctx.report(vp.Violation(f"a real process hung during the stepped replay: {r['hang']}",
                                 replay={"schedule": r["schedule"], "levels": r["levels"],
@@ -817,7 +963,8 @@ def run(ctx):
             ctx.note(f"state-level drift: run {chunk[k]['tag']} record {sv.record} invariant {sv.invariant}; "
                      f"interleaving tail {describe(chunk[k])[-14:]}")
             break
-    ctx.coverage["replays"] = {"stepped_and_free_runs": len(runs), "node_level_runs": len(nruns),
+    ctx.coverage["replays"] = {"stepped_and_free_runs": len(runs), "node_level_runs": len(nruns) - len(fruns),
+                               "two_cleaner_grid_runs": len(grid), "fault_injected_attempts": len(fruns),
                                "diverged_from_model_schedule": ndiv}
     ctx.coverage["real_signatures"] = {sig_str(s): len(v) for s, v in sorted(real.items())}
     for r in runs[:2]:
@@ -845,7 +992,8 @@ def run(ctx):
             what = (f"{inv} is violated by real processes ({sig_str(s)}) in {len(real[s])} replayed interleavings "
                     f"(the implementation-shaped model did not predict it)")
         ctx.report(vp.Violation(what, replay={
-            "signature": sig_str(s), "invariant": inv, "schedule": rr["schedule"], "levels": rr["levels"],
+            "signature": sig_str(s), "invariant": inv, "kind": rr.get("kind", "schedule"), "schedule": rr["schedule"],
+            "levels": rr["levels"],
             "cont": rr["cont"], "real_interleaving": describe(rr) or rr.get("sys"),
             "real_answers": [[p, o] for p, o in rr["answers"]], "model_schedule": sched if in_model else None,
             "cmd": "bin/check C07 --replay <this file>"}, signature=sig_str(s)))
@@ -859,6 +1007,152 @@ def run(ctx):
         strace_check(ctx)
     ctx.coverage["rule"] = ("evaluations = stepped / free runs of real processes; distinct = distinct recorded traces; "
                             "states/transitions = TLC on ProcessState with extracted step sequences")
+
+
+def run_result(r, kind, tag, sched, levels, hang, recs):
+    return {"tag": tag, "kind": kind, "records": recs, "diverged": None, "hang": hang, "answers": r.answers,
+            "schedule": sched, "cont": "-", "levels": levels}
+
+
+BUSY = ("acquiring", "owner", "cdropping")
+
+
+def grid_run(ctx, tag, a, b, variant):
+    """Two real cleaners going for the same dead process: the (eventual) loser C2 performs a calls of its attempt,
+    the winner C1 then b calls of its life (attempt, ownership, drop), then C2 runs to its result - a refusal
+    wherever C1 was first - and monitors ask at both levels. variant "complete": C1 completes, the owner drops;
+    "kill": the first cleaner that is busy (attempting / owning / dropping) is killed where it stands. A third
+    cleaner then tries (it must recover what a dead cleaner left), monitors ask again."""
+    levels = {"M1": "pm", "M2": "cal"}
+    r = Run(ctx, tag, levels, stepped=True)
+    hang = None
+    try:
+        r.proc("G")
+        r.finish("G")
+        r.crash("G")
+        r.steps("C2", a)
+        r.steps("C1", b)
+        r.finish("C2")
+        r.query("M1")
+        r.query("M2")
+        if variant == "kill":
+            for p in ("C1", "C2"):
+                if r.state.get(p) in BUSY:
+                    r.crash(p)
+                    break
+        else:
+            r.finish("C1")
+            for p in ("C1", "C2"):
+                if r.state.get(p) == "owner":
+                    r.finish(p, whole_life=True)
+        r.proc("C3")
+        r.finish("C3")
+        r.query("M1")
+        r.query("M2")
+        for p in ("C3", "C1", "C2"):
+            if r.state.get(p) in BUSY:
+                r.finish(p, whole_life=True)
+        r.query("M1")
+        recs = r.records()
+    except shimctl.Hang as e:
+        hang = str(e)
+        recs = r.records()
+    finally:
+        r.close()
+    shutil.rmtree(r.dir, ignore_errors=True)
+    return run_result(r, "grid", tag, [a, b, variant], levels, hang, recs)
+
+
+def fault_run(ctx, tag, k, errno, owner_first):
+    """An attempt of cleaner C2 into which an operating-system failure is injected (the k-th tracked call of
+    ProcessCleaner::new fails with errno; sysshim FAIL_AT armed by the driver): whatever error it returns, it must
+    have changed nothing - monitors ask, then (after the owner C1, if any, has been killed) a third cleaner must
+    obtain the files."""
+    levels = {"M1": "pm", "M2": "cal"}
+    r = Run(ctx, tag, levels, stepped=False)
+    hang = None
+    try:
+        r.run_cmd("G")
+        r.crash("G")
+        if owner_first:
+            r.run_cmd("C1")
+        r.proc("C2")
+        r.faults["C2"] = (k, errno)
+        r.run_cmd("C2")
+        r.run_cmd("M1")
+        r.run_cmd("M2")
+        if owner_first and r.state.get("C1") in BUSY:
+            r.crash("C1")
+        r.run_cmd("C3")
+        r.run_cmd("M1")
+        for p in ("C3", "C2"):
+            if r.state.get(p) == "owner":
+                r.run_cmd(p)
+        r.run_cmd("M1")
+        recs = r.records()
+    except shimctl.Hang as e:
+        hang = str(e)
+        recs = r.records()
+    finally:
+        r.close()
+    shutil.rmtree(r.dir, ignore_errors=True)
+    return run_result(r, "fault", tag, [k, errno, owner_first], levels, hang, recs)
+
+
+def refusal_jobs(ext, quick, rng):
+    """(grid jobs, fault jobs) derived from the extracted call sequences."""
+    nstate, nacq, ndrop = ext["NState"], len(ext["CleanerAcquire"]), len(ext["CleanerDrop"])
+    total = nstate + nacq
+    if quick:
+        # the loser has passed its own state() check / has opened some files / stands before its lock attempt
+        avals = sorted({nstate // 2, nstate, nstate + max(nacq - 3, 0), total - 1})
+    else:
+        avals = list(range(0, total + 1))
+    grid = [(f"grid-{a}-{b}-{v}", a, b, v) for a in avals for b in range(0, total + ndrop + 1)
+            for v in ("complete", "kill")]
+    fails = [i + 1 for i, x in enumerate(ext["AcquireCalls"]) if x["op"] in ("open", "lock", "lockw")]
+    faults = []
+    for k in fails:
+        is_open = ext["AcquireCalls"][k - 1]["op"] == "open"
+        errs = ([2, 13] if is_open else [11, 4, 37]) if quick else ([2, 13, 4, 24, 12] if is_open else [11, 13, 4, 37, 35])
+        for en in errs:
+            for owner_first in (False, True):
+                faults.append((f"fault-{k}-{en}-{int(owner_first)}", k, en, owner_first))
+    return grid, faults
+
+
+def refusal_coverage(ctx, gruns, fruns):
+    """Vacuity of the refused-cleaner clauses: the real runs must contain refusals of every documented kind, losers
+    that ran their refusal tail, attempts with an injected failure, and verdicts asked while a cleaner was busy."""
+    res, tails, injected, asked = {}, 0, 0, 0
+    for r in gruns + fruns:
+        trying, busy = set(), set()
+        for x in r["records"]:
+            if x["k"] == "ev" and x["ev"] == "cstart":
+                trying.add(x["p"]); busy.add(x["p"])
+            elif x["k"] == "ev" and x["ev"] == "cresult":
+                trying.discard(x["p"])
+                if x["v"] != "Ok":
+                    busy.discard(x["p"])
+                    res[x["v"]] = res.get(x["v"], 0) + 1
+            elif x["k"] == "ev" and x["ev"] == "cdropped" or x["k"] == "crash":
+                busy.discard(x["p"]); trying.discard(x["p"])
+            elif x["k"] == "ev" and x["ev"] == "fault":
+                injected += 1
+            elif x["k"] == "ev" and x["ev"] == "verdict" and busy:
+                asked += 1
+            elif x["k"] == "sys" and x["p"] in trying and x["op"] == "lock" and x["obs"] == "fail":
+                tails += 1
+    ctx.coverage["refusals"] = {"results_of_refused_attempts": res, "lost_lock_races": tails,
+                                "injected_failures": injected, "verdicts_while_a_cleaner_was_busy": asked}
+    if gruns:
+        for v in ("OwnedByAnother", "BeingCleanedUp", "DoesNotExist"):
+            if not res.get(v):
+                raise vp.ToolError(f"vacuous: no real cleaner was refused with {v} in the two-cleaner grid")
+        if not tails or not asked:
+            raise vp.ToolError("vacuous: no lost lock race / no verdict while a cleaner was busy in the two-cleaner grid")
+    if fruns and not injected:
+        raise vp.ToolError("vacuous: no failure was injected into any cleaner attempt")
 
 
 def free_run(ctx, tag, rng):
